@@ -286,7 +286,7 @@ pub fn run(ctx: &Ctx, rep: &Report) -> Meta {
                positive: verify_proof true (the issuer is given the commitment value only), proof survives JSON, blind_sign returns, the unblinded signature verifies on the full vector, re-issuing with a changed revealed attribute verifies on the new vector and not on the old; \
                negative: commitment to other attributes / C*b, another hidden set of the same size, other bases, other issuer key, wrong trusted commitment: verify_proof false AND blind_sign refuses; \
                every integer leaf of the serialised proof perturbed by +1, -1, := 0, := sibling (16-24 sampled perturbations per proof in quick, all in thorough's fixed list): verify_proof false; \
-               non-trivial = hidden set != {0} (the crate's only tested configuration); evaluations = verifier / issuer decisions"
+               n = 6 and 8 with first / last / all / alternating hidden sets; a proof without the trusted-party sub-proof presented to an issuer that requires one, a sub-proof checked against another commitment key; non-trivial = hidden set != {0} (the crate's only tested configuration); evaluations = verifier / issuer decisions"
             .into(),
         assumptions: vec!["blind_sign refuses by panicking (by design): observed under catch_unwind".into(), "CL2048/CL3072 in thorough only (fixture primes)".into()],
     }
